@@ -95,7 +95,7 @@ CHECKS = {
    note='Histories longer than the bound and more live nodes are outside the claim. Well-formed use as stated (free explicit pins; fork output pins gap-free; one substitution per instance name).'),
  'C17': dict(engine='E2-symx (choice exploration)', category='exploration', design_ref='DESIGN.md §5 C17, §7',
    technique='bounded exhaustive exploration of circuit graphs and origin sets with the forking engine; bus index values as symbolic integers concretised by z3 under distinctness constraints; independent definitions of the traversal semantics',
-   text='Every graph with <= 3 nodes over seven kinds and every 4-node graph over four kinds (quick; <= 5 nodes over all kinds thorough) with any pin optionally unconnected, plus the corpus circuits: completeness, '
+   text='Every graph with <= 3 nodes over seven kinds and every 4-node graph over four kinds (quick; <= 4 nodes over all kinds thorough) with any input pin optionally unconnected, every graph with <= 3 nodes in which two-output nodes may leave output pin 0 open, plus the corpus circuits: completeness, '
         'driver-before-reader order cut at state elements, longest-path levels, line order, mirrored reverse order, fan-in sandwich (combinational-path set <= yielded <= any-path set, equality for combinational circuits); '
         'prefix lookups ordered LSB to MSB for bracket / underscore / plain index styles, gaps, two dimensions.',
    note='Exhaustive within the bound only. Known finding: fanin() omits state elements that feed the cone through an intermediate node.'),
